@@ -1171,6 +1171,116 @@ func runDDL(e *hx.Env, d ddlCase) {
 	}
 }
 
+// ---------------------------------------------------------------- revision-qualified sessions
+
+// revCase: the same CREATE TABLE (+ ALTERs) on two branches of one database — f1 through
+// dolt_checkout, f2 through a session on the revision-qualified database (USE `db/f2`) — while the
+// checked-out branch (main) meanwhile holds a same-named table whose columns are declared in
+// another order (hence other tags).  Equal tags / SHOW CREATE TABLE / schema hash / table hash.
+type revCase struct {
+	Stream string   `json:"stream"`
+	Table  string   `json:"table"`
+	Cols   []string `json:"cols"` // "name type", first one is the primary key
+	Alters []string `json:"alters"`
+}
+
+func (c revCase) create(perm bool) string {
+	cols := append([]string{}, c.Cols...)
+	if perm {
+		for i, j := 0, len(cols)-1; i < j; i, j = i+1, j-1 {
+			cols[i], cols[j] = cols[j], cols[i]
+		}
+	}
+	pk := strings.Fields(c.Cols[0])[0]
+	return fmt.Sprintf("create table `%s` (%s, primary key (%s))", c.Table, strings.Join(cols, ", "), pk)
+}
+
+func genRev(r *hx.Rng, i int) revCase {
+	c := revCase{Stream: "rev", Table: hx.Pick(r, []string{"t", "people", "Orders"}) + fmt.Sprint(i)}
+	used := map[string]bool{}
+	n := r.Range(2, 5)
+	for len(c.Cols) < n {
+		nm := hx.Pick(r, []string{"a", "b", "c", "d", "val", "name", "n"})
+		if used[nm] {
+			continue
+		}
+		used[nm] = true
+		ty := hx.Pick(r, []string{"int", "int", "varchar(20)", "bigint", "text", "double", "datetime"})
+		if len(c.Cols) == 0 {
+			ty = "int"
+		}
+		c.Cols = append(c.Cols, nm+" "+ty)
+	}
+	if r.Bool() {
+		c.Alters = append(c.Alters, fmt.Sprintf("alter table `%s` add column extra%d int", c.Table, i))
+	}
+	return c
+}
+
+var revSeq int
+
+func runRev(e *hx.Env, c revCase) {
+	revSeq++
+	out := hx.Recover(func() string {
+		dir := filepath.Join(e.Scratch, fmt.Sprintf("rev%d", revSeq))
+		eng, err := sqleng.New(dir, sqleng.Options{})
+		if err != nil {
+			return "engine: " + err.Error()
+		}
+		defer func() { eng.Close(); os.RemoveAll(dir) }()
+		s, _ := eng.NewSession()
+		s.MustExec("create table seed_tbl (x int primary key)")
+		s.MustExec("call dolt_commit('-Am','base')")
+		s.MustExec("call dolt_branch('f1')")
+		s.MustExec("call dolt_branch('f2')")
+		ddl := append([]string{c.create(false)}, c.Alters...)
+		// f1: through dolt_checkout
+		s.MustExec("call dolt_checkout('f1')")
+		var e1 []string
+		for _, q := range ddl {
+			e1 = append(e1, s.Exec(q).Class())
+		}
+		st1, err := snapshot(s)
+		if err != nil {
+			return "snapshot f1: " + err.Error()
+		}
+		s.MustExec("call dolt_commit('--allow-empty','-Am','f1')")
+		// main: a same-named table with the columns in another order
+		s.MustExec("call dolt_checkout('main')")
+		s.MustExec(c.create(true))
+		s.MustExec("call dolt_commit('-Am','main has its own table')")
+		// f2: through a session on the revision-qualified database
+		s2, _ := eng.NewSession()
+		if r := s2.Exec("use `db/f2`"); r.Err != nil {
+			return "use db/f2: " + r.Err.Error()
+		}
+		var e2 []string
+		for _, q := range ddl {
+			e2 = append(e2, s2.Exec(q).Class())
+		}
+		s2.Exec("call dolt_commit('--allow-empty','-Am','f2')")
+		s.MustExec("call dolt_checkout('f2')")
+		st2, err := snapshot(s)
+		if err != nil {
+			return "snapshot f2: " + err.Error()
+		}
+		e.Rep.Count("rev "+strings.Join(ddl, ";"), true)
+		e.Rep.Hit("rev:cases")
+		e.Rep.TracesValidated++
+		if strings.Join(e1, ",") != strings.Join(e2, ",") {
+			e.Rep.Violate("ddl/revision-db-errors", fmt.Sprintf("same DDL, different outcomes through checkout and through USE `db/f2`: %v vs %v", e1, e2), c)
+			return ""
+		}
+		if df := diffState(st1, st2); df != "" {
+			e.Rep.Violate("ddl/revision-db", "same DDL on f1 (dolt_checkout) and f2 (USE `db/f2`, main holds a same-named table with permuted columns): "+df, c)
+		}
+		return ""
+	})
+	if out != "" {
+		e.Rep.Violate("ddl/failure", out, c)
+	}
+}
+
 // ---------------------------------------------------------------- main
 
 func runRaw(e *hx.Env, m *hx.Model, raw json.RawMessage) {
@@ -1193,6 +1303,11 @@ func runRaw(e *hx.Env, m *hx.Model, raw json.RawMessage) {
 		var d ddlCase
 		if json.Unmarshal(raw, &d) == nil {
 			runDDL(e, d)
+		}
+	case "rev":
+		var c revCase
+		if json.Unmarshal(raw, &c) == nil {
+			runRev(e, c)
 		}
 	}
 }
@@ -1229,5 +1344,9 @@ func main() {
 	}
 	for i, n := 0, e.N(10, 120); i < n; i++ {
 		runDDL(e, genDDL(r))
+	}
+	runRev(e, revCase{Stream: "rev", Table: "t", Cols: []string{"a int", "b int", "c varchar(20)"}})
+	for i, n := 0, e.N(5, 60); i < n; i++ {
+		runRev(e, genRev(r, i))
 	}
 }
